@@ -529,6 +529,13 @@ func c04Plan(tier string, seed uint64) (ids []int, seeds []uint64, regions []str
 	if tier == "thorough" {
 		nMain, nRegion = 6000, 150
 	}
+	// (experiments: C04_NMAIN / C04_NREGION override the sizes of the streams)
+	if v := os.Getenv("C04_NMAIN"); v != "" {
+		fmt.Sscan(v, &nMain)
+	}
+	if v := os.Getenv("C04_NREGION"); v != "" {
+		fmt.Sscan(v, &nRegion)
+	}
 	master := newRng(seed).fork()
 	id := 0
 	mk := func(region string, n int) {
